@@ -17,7 +17,7 @@ if round2:
             taken.append("   - %s (%s)" % (m.get("title", "?"), ", ".join(m.get("files", []))[:120]))
         except Exception:
             pass
-    EXTRA = ("This is a LATER round: earlier volunteers already produced the changes listed below - do not repeat them or close variants; pick different functions / clauses of the statement. Prefer harder-to-expose changes: two cooperating edits in different functions that each look harmless alone; state that goes stale only after a specific three-step history; a boundary condition (exactly equal values, empty collection, single element, zero, maximum); an interaction of two optional flags; behaviour that differs only for one rooting state, one data type or one file format.\n Already taken:\n" + "\n".join(taken))
+    EXTRA = ("This is a LATER round: earlier volunteers already produced the changes listed below - do not repeat them or close variants; pick different functions / clauses of the statement. Prefer harder-to-expose changes: two cooperating edits in different functions that each look harmless alone; state that goes stale only after a specific three-step history; a boundary condition (exactly equal values, empty collection, single element, zero, maximum); an interaction of two optional flags; behaviour that differs only for one rooting state, one data type or one file format; a public entry point, keyword argument or legitimate-but-unusual object state (of the anchored files) that none of the listed changes touches. Scratch files go inside your worktree's seeded_out directory, not directly in /tmp.\n Already taken:\n" + "\n".join(taken))
 print(f"""You are helping to evaluate a verification framework for the open-source Python library DendroPy (phylogenetics: trees, character matrices, NEXUS/Newick/NeXML readers and writers). Your task is to play the role of a developer who introduces a realistic REGRESSION.
 
 You work ONLY inside your own scratch git worktree of the library at {wt} (source under {wt}/src/dendropy, tests under {wt}/tests). Do not read or write anything under /verif or /repo, and do not look at other directories under /tmp. Python to use: /venv/bin/python (run things with PYTHONPATH={wt}/src so your worktree's code is imported, and check `dendropy.__file__`).
